@@ -91,6 +91,8 @@ pub struct St<const N: usize> {
     pub storage: Option<Storage<ArrayKey<N>>>,
     pub written: HashMap<(usize, u32), u64>,
     pub auto_quiesce: bool,
+    pub snaps: HashMap<String, Vec<u8>>,
+    pub eof: HashMap<String, Option<u64>>,
 }
 
 fn key_of<const N: usize>(hex: &str) -> ArrayKey<N> {
@@ -479,6 +481,112 @@ async fn exec<const N: usize>(st: &mut St<N>, ctx: &mut Ctx, toks: &[&str]) {
             Ok(b) => ctx.emit(format!("filehex {}", hex_encode(&b))),
             Err(_) => ctx.emit("filehex absent"),
         },
+
+        #[cfg(pearl_verif)]
+        ("trace", [sub]) => {
+            use pearl::verif_io;
+            match *sub {
+                "on" => { verif_io::start_recording(); ctx.emit("trace on"); }
+                "off" => { verif_io::stop_recording(); ctx.emit("trace off"); }
+                _ => {
+                    // dump: events since the last dump, paths relative to the work dir
+                    let evs = verif_io::take_events();
+                    let base = st.dir.to_string_lossy().to_string();
+                    let mut parts = Vec::new();
+                    for e in evs {
+                        let p = e.path.strip_prefix(&base).unwrap_or(&e.path).trim_start_matches('/').to_string();
+                        let k = match e.kind {
+                            verif_io::Kind::Create => "create".to_string(),
+                            verif_io::Kind::Open => "open".to_string(),
+                            verif_io::Kind::Append => format!("append@{}+{}", e.offset, e.len),
+                            verif_io::Kind::WriteAt => format!("writeat@{}+{}", e.offset, e.len),
+                            verif_io::Kind::Sync => "sync".to_string(),
+                        };
+                        parts.push(format!("{}:{}{}", k, p, if e.ok { "" } else { "!" }));
+                    }
+                    ctx.emit(format!("trace {}", parts.join(" ")));
+                }
+            }
+        }
+        #[cfg(pearl_verif)]
+        ("tracecheck", [mode]) => {
+            // C07 on the recorded events: appends to a blob file land exactly at its end, nothing else
+            // ever writes into a blob file; mode `quiet` additionally demands no write event at all
+            use pearl::verif_io;
+            let evs = verif_io::take_events();
+            let base = st.dir.to_string_lossy().to_string();
+            let mut problems = Vec::new();
+            let mut writes = 0;
+            for e in &evs {
+                let p = e.path.strip_prefix(&base).unwrap_or(&e.path).trim_start_matches('/').to_string();
+                let is_blob = p.ends_with(".blob");
+                match e.kind {
+                    verif_io::Kind::Create => { writes += 1; if is_blob {
+                        if std::path::Path::new(&e.path).exists() && st.eof.contains_key(&p) { problems.push(format!("create-over-existing:{}", p)); }
+                        st.eof.insert(p.clone(), Some(0)); } }
+                    verif_io::Kind::Open => { if is_blob { st.eof.insert(p.clone(), None); } }
+                    verif_io::Kind::Append => { writes += 1; if is_blob {
+                        let cur = st.eof.get(&p).cloned().flatten();
+                        if let Some(c) = cur { if c != e.offset { problems.push(format!("append-not-at-eof:{}@{}!={}", p, e.offset, c)); } }
+                        if e.ok { st.eof.insert(p.clone(), Some(e.offset + e.len)); } else { st.eof.insert(p.clone(), None); } } }
+                    verif_io::Kind::WriteAt => { writes += 1; if is_blob { problems.push(format!("positional-write-into-blob:{}@{}", p, e.offset)); } }
+                    verif_io::Kind::Sync => {}
+                }
+            }
+            // the tracked end of every blob file must be its real length
+            for (p, eof) in st.eof.iter() {
+                if let (Some(c), Ok(md)) = (eof, std::fs::metadata(st.dir.join(p))) {
+                    if md.len() != *c { problems.push(format!("length-mismatch:{}:{}!={}", p, md.len(), c)); }
+                }
+            }
+            if *mode == "quiet" && writes > 0 { problems.push(format!("writes-during-queries:{}", writes)); }
+            problems.sort();
+            ctx.emit(if problems.is_empty() { "tracecheck ok".to_string() } else { format!("tracecheck VIOLATION {}", problems.join(" ")) });
+        }
+        ("snapcheck", []) => {
+            // C07 on bytes: every blob file seen earlier is still there (or in the corrupted dir) with its
+            // earlier content as a prefix
+            let mut problems = Vec::new();
+            let mut cur: HashMap<String, Vec<u8>> = HashMap::new();
+            for sub in ["", "corrupted"] {
+                if let Ok(rd) = std::fs::read_dir(st.dir.join(sub)) {
+                    for e in rd.flatten() {
+                        let name = e.file_name().to_string_lossy().to_string();
+                        if name.ends_with(".blob") {
+                            if let Ok(b) = std::fs::read(e.path()) {
+                                if sub.is_empty() || !cur.contains_key(&name) { cur.insert(name, b); }
+                            }
+                        }
+                    }
+                }
+            }
+            for (name, old) in st.snaps.iter() {
+                match cur.get(name) {
+                    None => problems.push(format!("missing:{}", name)),
+                    Some(now) => if now.len() < old.len() || now[..old.len()] != old[..] { problems.push(format!("not-a-prefix:{}", name)); }
+                }
+            }
+            for (name, b) in cur { st.snaps.insert(name, b); }
+            problems.sort();
+            ctx.emit(if problems.is_empty() { "snapcheck ok".to_string() } else { format!("snapcheck VIOLATION {}", problems.join(" ")) });
+        }
+        #[cfg(pearl_verif)]
+        ("fail", [kind, pat, nth, action]) => {
+            use pearl::verif_io::{self, Action, Kind};
+            let k = match *kind { "create" => Kind::Create, "open" => Kind::Open, "append" => Kind::Append, "writeat" => Kind::WriteAt, "sync" => Kind::Sync, _ => panic!("kind") };
+            let a = if let Some(n) = action.strip_prefix("short:") { Action::Short(n.parse().unwrap()) } else {
+                Action::Fail(match *action { "ENOSPC" => libc::ENOSPC, "EIO" => libc::EIO, "EACCES" => libc::EACCES, x => x.parse().unwrap() }) };
+            verif_io::arm(k, pat, nth.parse().unwrap(), a);
+            ctx.emit("fail armed");
+        }
+        #[cfg(pearl_verif)]
+        ("clearfail", []) => { pearl::verif_io::clear_failpoints(); ctx.emit("clearfail"); }
+        #[cfg(pearl_verif)]
+        ("dirty", []) => {
+            let s = need_storage!(st, ctx, c);
+            let d = s.verif_dirty_bytes().await;
+            ctx.emit(format!("dirty {}", d.map(|x| x.to_string()).unwrap_or_else(|| "none".into())));
+        }
         ("bloom", _) => crate::bloom_cmds::cmd_bloom(ctx, a).await,
         ("hier", _) => crate::hier_cmds::cmd_hier::<N>(ctx, a).await,
         #[cfg(pearl_verif)]
@@ -508,8 +616,14 @@ pub fn run_script<const N: usize>(script: &str) -> String {
     } else {
         tokio::runtime::Builder::new_multi_thread().worker_threads(2).enable_all().build().unwrap()
     };
+    #[cfg(pearl_verif)]
+    {
+        pearl::verif_io::clear_failpoints();
+        pearl::verif_io::stop_recording();
+        let _ = pearl::verif_io::take_events();
+    }
     let mut ctx = Ctx { out: String::new(), blooms: HashMap::new(), raws: HashMap::new() };
-    let mut st = St::<N> { cfg, dir: dir.clone(), storage: None, written: HashMap::new(), auto_quiesce: true };
+    let mut st = St::<N> { cfg, dir: dir.clone(), storage: None, written: HashMap::new(), auto_quiesce: true, snaps: HashMap::new(), eof: HashMap::new() };
     rt.block_on(async {
         for line in script.lines() {
             let line = line.trim();
